@@ -449,7 +449,7 @@ Fixpoint leaves (t : tree) : list Z :=
   | Lst l => flat_map leaves l
   | Tok i _ => [i]
   | Kw i => [i]
-  | Paren i j x => i :: leaves x ++ [j]
+  | Paren i j x => [i] ++ leaves x ++ [j]
   | Hid x => leaves x
   | _ => []
   end.
